@@ -126,6 +126,50 @@ Definition s_value := bs "value".
 Definition s_this := bs "this".
 Definition s_item := bs "item".
 
+(* convertOperand: parenthesise an operand whose own operator binds less tightly (or equally, on the right);
+   a double literal next to an arithmetic operator keeps its decimal point *)
+Definition operand_of (parent : cfun) (arg : cexpr) (right : bool) (conv : gexpr) : gexpr :=
+  let pp := go_prec parent in
+  if (pp =? 0)%nat then conv else
+  match arg with
+  | EConst (KDouble b) => if (3 <? pp)%nat then GLitFloat b else conv
+  | _ =>
+      match call_fn arg with
+      | Some f => let p := go_prec f in
+                  if negb (p =? 0)%nat && ((p <? pp)%nat || (right && (p =? pp)%nat)) then paren conv else conv
+      | None => conv
+      end
+  end.
+
+(* convertInOperator, given the converted element and collection *)
+Definition tr_in (b : cexpr) (el coll : gexpr) : option gexpr :=
+  let v := fresh_var 64 s_item el coll in
+  let generic := GExists v coll (GBin BEq (GVar v) el) in
+  let after_opt :=
+    match b with
+    | EList (x :: r) =>
+        if forallb is_numeric_const (x :: r) then
+          (* (el == c1 || el == c2 || ...) *)
+          match coll with
+          | GIfaceList (c1 :: cs) =>
+              Some (paren (fold_left (fun acc c => GBin BOr acc (GBin BEq el c)) cs (GBin BEq el c1)))
+          | _ => None
+          end
+        else None
+    | _ => None
+    end in
+  match coll with
+  | GIfaceList es =>
+      if existsb has_quote es then Some (GSlicesContains (GStrList es) el)
+      else match after_opt with Some g => Some g | None => Some generic end
+  | _ =>
+      match after_opt with
+      | Some g => Some g
+      | None => if starts_with_t coll && starts_quote el && ends_quote el then Some (GSlicesContains coll el)
+                else Some generic
+      end
+  end.
+
 Section Tr.
   Variable fname : ident.         (* the field carrying the marker *)
   Variable re_ok : bytes -> bool. (* regexp.Compile succeeds on a constant pattern (evaluated at generation time) *)
@@ -134,20 +178,6 @@ Section Tr.
     match e with EConst (KString p) => re_ok p | _ => true end.
 
   Fixpoint tr (e : cexpr) : option gexpr :=
-    (* convertOperand *)
-    let operand (parent : cfun) (arg : cexpr) (right : bool) : option gexpr :=
-      obind (tr arg) (fun conv =>
-        let pp := go_prec parent in
-        if (pp =? 0)%nat then Some conv else
-        match arg with
-        | EConst (KDouble b) => if (3 <? pp)%nat then Some (GLitFloat b) else Some conv
-        | _ =>
-            match call_fn arg with
-            | Some f => let p := go_prec f in
-                        if negb (p =? 0)%nat && ((p <? pp)%nat || (right && (p =? pp)%nat)) then Some (paren conv) else Some conv
-            | None => Some conv
-            end
-        end) in
     match e with
     | EIdent x => Some (if bytes_eqb x s_value then GSel GT fname else if bytes_eqb x s_this then GT else GVar x)
     | ESelect o f test_only => if test_only then obind (tr o) (fun _ => None) else omap (fun g => GSel g f) (tr o)
@@ -166,34 +196,7 @@ Section Tr.
         end
     | ECall2 fn a b =>
         match fn with
-        | FIn =>
-            obind (tr a) (fun el => obind (tr b) (fun coll =>
-              let v := fresh_var 64 s_item el coll in
-              let generic := GExists v coll (GBin BEq (GVar v) el) in
-              let after_opt :=
-                match b with
-                | EList (x :: r) =>
-                    if forallb is_numeric_const (x :: r) then
-                      (* (el == c1 || el == c2 || ...) *)
-                      match coll with
-                      | GIfaceList (c1 :: cs) =>
-                          Some (paren (fold_left (fun acc c => GBin BOr acc (GBin BEq el c)) cs (GBin BEq el c1)))
-                      | _ => None
-                      end
-                    else None
-                | _ => None
-                end in
-              match coll with
-              | GIfaceList es =>
-                  if existsb has_quote es then Some (GSlicesContains (GStrList es) el)
-                  else match after_opt with Some g => Some g | None => Some generic end
-              | _ =>
-                  match after_opt with
-                  | Some g => Some g
-                  | None => if starts_with_t coll && starts_quote el && ends_quote el then Some (GSlicesContains coll el)
-                            else Some generic
-                  end
-              end))
+        | FIn => obind (tr a) (fun el => obind (tr b) (fun coll => tr_in b el coll))
         | FAnd => obind (tr a) (fun l => omap (fun r => GBin BAnd (paren l) (paren r)) (tr b))
         | FOr => obind (tr a) (fun l => omap (fun r => GBin BOr (paren l) (paren r)) (tr b))
         | FContains => obind (tr a) (fun s => omap (fun p => GStrFn SContains s p) (tr b))
@@ -202,7 +205,7 @@ Section Tr.
         | FMatches => obind (tr a) (fun s => obind (tr b) (fun p => if pattern_ok b then Some (GMatch p s) else None))
         | _ =>
             match bin_of fn with
-            | Some op => obind (operand fn a false) (fun l => omap (fun r => GBin op l r) (operand fn b true))
+            | Some op => obind (tr a) (fun l => omap (fun r => GBin op (operand_of fn a false l) (operand_of fn b true r)) (tr b))
             | None => obind (tr a) (fun _ => obind (tr b) (fun _ => None))
             end
         end
